@@ -144,8 +144,8 @@ def xmech(work):
 
 def staged(work):
     """C09, the caller's side: a wrong stage in one reported step must be rejected"""
-    cases = [{"id": 1, "form": "capture", "k": 0, "stages": [[1, 1], [2, 1], [3, 1]], "mode": "probe"},
-             {"id": 2, "form": "cond", "k": 2, "stages": [[1, 1], [2, 1], [2, 1], [3, 1]], "mode": "probe"}]
+    cases = [{"id": 1, "form": "capture", "k": 0, "stages": [[1, 1], [2, 1], [3, 1]], "mode": "probe", "deep": False},
+             {"id": 2, "form": "cond", "k": 2, "stages": [[0, 1], [2, 1], [2, 1], [3, 1]], "mode": "probe", "deep": True}]
     cin, cout = os.path.join(work, "sg.json"), os.path.join(work, "st.json")
     json.dump(cases, open(cin, "w"))
     core.run_driver("harness.drivers.staged_driver", [cin, cout])
